@@ -11,7 +11,7 @@
    related to sp by C04's refinement relation `Rel`, the run of p either dies by a panic of
    the storage (a request beyond 2^64 bytes) or ends in a state related to some sp' with Q.
    It uses nothing but C04's `step_refines`. *)
-From Agdb Require Import Bytes BytesProofs Records RecordsProofs Storage StorageSpec StorageLayout StorageWp
+From Agdb Require Import Bytes BytesProofs Records RecordsProofs RecordsTableProofs Storage StorageSpec StorageLayout StorageWp
   StorageRefine StorageProofs Collections.
 From Coq Require Import ZifyBool ZifyNat ZifyN.
 Ltac Zify.zify_post_hook ::= Z.div_mod_to_equations.
@@ -26,12 +26,19 @@ Arguments N.ltb : simpl never.
 Arguments N.leb : simpl never.
 Arguments N.div : simpl never.
 
+(* the one thing a real storage guarantees beyond the abstract map: indexes are u64 values *)
+Definition obs_ok (o : sop) (v : obs) : Prop :=
+  match o, v with
+  | SInsert _, ObNum i => i < two64
+  | _, _ => True
+  end.
+
 Fixpoint cwp {A} (fl : bool) (p : cprog A) (sp : spec) (Q : cres A -> spec -> Prop) : Prop :=
   match p with
   | CRet a => Q (CrOk a) sp
   | CErr e => Q (CrErr e) sp
   | CDead => False
-  | CDo o k => forall v sp', spec_step fl sp o v = Some sp' -> cwp fl (k v) sp' Q
+  | CDo o k => forall v sp', spec_step fl sp o v = Some sp' -> obs_ok o v -> cwp fl (k v) sp' Q
   end.
 
 Section Wp.
@@ -41,7 +48,7 @@ Section Wp.
     (forall r sp', Q r sp' -> Q' r sp') -> cwp fl p sp Q -> cwp fl p sp Q'.
   Proof.
     induction p as [a|e| |o k IH]; intros sp Q Q' HQ H; cbn [cwp] in *; [apply HQ; exact H|apply HQ; exact H|exact H|].
-    intros v sp' Hs. eapply IH; [exact HQ|]. apply H; exact Hs.
+    intros v sp' Hs Hok. eapply IH; [exact HQ|]. apply H; assumption.
   Qed.
 
   (* the continuation of a bind *)
@@ -56,14 +63,14 @@ Section Wp.
     cwp fl p sp (kont f Q) -> cwp fl (cbind p f) sp Q.
   Proof.
     induction p as [a|e| |o k IH]; intros sp Q H; cbn [cbind cwp kont] in *; [exact H|exact H|exact H|].
-    intros v sp' Hs. apply IH. apply H; exact Hs.
+    intros v sp' Hs Hok. apply IH. apply H; assumption.
   Qed.
 
   Lemma cwp_bind_inv {A B} (p : cprog A) (f : A -> cprog B) : forall sp Q,
     cwp fl (cbind p f) sp Q -> cwp fl p sp (kont f Q).
   Proof.
     induction p as [a|e| |o k IH]; intros sp Q H; cbn [cbind cwp kont] in *; [exact H|exact H|exact H|].
-    intros v sp' Hs. apply IH. apply H; exact Hs.
+    intros v sp' Hs Hok. apply IH. apply H; assumption.
   Qed.
 
   Lemma cwp_try {A} (p : cprog A) : forall sp (Q : cres (option A) -> spec -> Prop),
@@ -75,7 +82,7 @@ Section Wp.
     cwp fl (cp_try p) sp Q.
   Proof.
     induction p as [a|e| |o k IH]; intros sp Q H; cbn [cp_try cwp] in *; [exact H|exact H|exact H|].
-    intros v sp' Hs. apply IH. apply H; exact Hs.
+    intros v sp' Hs Hok. apply IH. apply H; assumption.
   Qed.
 
   Lemma cwp_catch {A} (p : cprog A) : forall sp (Q : cres (sum A cv_err) -> spec -> Prop),
@@ -87,7 +94,7 @@ Section Wp.
     cwp fl (cp_catch p) sp Q.
   Proof.
     induction p as [a|e| |o k IH]; intros sp Q H; cbn [cp_catch cwp] in *; [exact H|exact H|exact H|].
-    intros v sp' Hs. apply IH. apply H; exact Hs.
+    intros v sp' Hs Hok. apply IH. apply H; assumption.
   Qed.
 
   (* ---------------- the storage calls ---------------- *)
@@ -103,11 +110,11 @@ Section Wp.
     end.
 
   Lemma cwp_insert bs sp (Q : cres N -> spec -> Prop) :
-    (forall i sp', i <> 0 -> m_get (sm sp) i = None -> sm sp' = m_put (sm sp) i bs -> sdepth sp' = sdepth sp ->
+    (forall i sp', i <> 0 -> i < two64 -> m_get (sm sp) i = None -> sm sp' = m_put (sm sp) i bs -> sdepth sp' = sdepth sp ->
        Q (CrOk i) sp') ->
     cwp fl (cp_insert bs) sp Q.
   Proof.
-    intros HQ. cbn [cp_insert cp_num cwp]. intros v sp' H. cbn [spec_step] in H.
+    intros HQ. cbn [cp_insert cp_num cwp]. intros v sp' H Hok. cbn [spec_step] in H.
     destruct v; try discriminate H.
     destruct (N.eqb_spec n 0) as [->|Hn]; cbn [negb] in H; [discriminate|].
     destruct (m_get (sm sp) n) eqn:Hg; [discriminate|]. injection H as <-. cbn [cwp].
@@ -119,7 +126,7 @@ Section Wp.
     (forall sp', sm sp' = m_put (sm sp) i (v_insert_at x off bs) -> sdepth sp' = sdepth sp -> Q (CrOk tt) sp') ->
     cwp fl (cp_insert_at i off bs) sp Q.
   Proof.
-    intros Hg HQ. cbn [cp_insert_at cp_unit cwp]. intros v sp' H. cbn [spec_step] in H. rewrite Hg in H.
+    intros Hg HQ. cbn [cp_insert_at cp_unit cwp]. intros v sp' H Hok. cbn [spec_step] in H. rewrite Hg in H.
     inv_guard H. destruct v; try discriminate. cbn [cwp]. apply HQ; reflexivity.
   Qed.
 
@@ -128,7 +135,7 @@ Section Wp.
     (forall sp', sm sp' = m_put (sm sp) i (v_resize x n) -> sdepth sp' = sdepth sp -> Q (CrOk tt) sp') ->
     cwp fl (cp_resize_value i n) sp Q.
   Proof.
-    intros Hg HQ. cbn [cp_resize_value cp_unit cwp]. intros v sp' H. cbn [spec_step] in H. rewrite Hg in H.
+    intros Hg HQ. cbn [cp_resize_value cp_unit cwp]. intros v sp' H Hok. cbn [spec_step] in H. rewrite Hg in H.
     inv_guard H. destruct v; try discriminate. cbn [cwp]. apply HQ; reflexivity.
   Qed.
 
@@ -137,7 +144,7 @@ Section Wp.
     (forall sp', sm sp' = m_put (sm sp) i (v_move x from to n) -> sdepth sp' = sdepth sp -> Q (CrOk tt) sp') ->
     cwp fl (cp_move_at i from to n) sp Q.
   Proof.
-    intros Hg Hb HQ. cbn [cp_move_at cp_unit cwp]. intros v sp' H. cbn [spec_step] in H. rewrite Hg in H.
+    intros Hg Hb HQ. cbn [cp_move_at cp_unit cwp]. intros v sp' H Hok. cbn [spec_step] in H. rewrite Hg in H.
     destruct (N.ltb_spec (lenN x) from); [lia|]. destruct (N.ltb_spec (lenN x) (from + n)); [lia|]. cbn [orb] in H.
     inv_guard H. destruct v; try discriminate. cbn [cwp]. apply HQ; reflexivity.
   Qed.
@@ -147,21 +154,21 @@ Section Wp.
     (forall sp', sm sp' = m_del (sm sp) i -> sdepth sp' = sdepth sp -> Q (CrOk tt) sp') ->
     cwp fl (cp_remove i) sp Q.
   Proof.
-    intros Hg HQ. cbn [cp_remove cp_unit cwp]. intros v sp' H. cbn [spec_step] in H. rewrite Hg in H.
+    intros Hg HQ. cbn [cp_remove cp_unit cwp]. intros v sp' H Hok. cbn [spec_step] in H. rewrite Hg in H.
     inv_guard H. destruct v; try discriminate. cbn [cwp]. apply HQ; reflexivity.
   Qed.
 
   Lemma cwp_value i sp x (Q : cres bytes -> spec -> Prop) :
     m_get (sm sp) i = Some x -> Q (CrOk x) sp -> cwp fl (cp_value i) sp Q.
   Proof.
-    intros Hg HQ. cbn [cp_value cp_bytes cwp]. intros v sp' H. cbn [spec_step] in H. rewrite Hg in H.
+    intros Hg HQ. cbn [cp_value cp_bytes cwp]. intros v sp' H Hok. cbn [spec_step] in H. rewrite Hg in H.
     inv_guard H. destruct v; try discriminate. cbn [is_bytes] in *. apply bytes_eqb_eq in EG. subst. exact HQ.
   Qed.
 
   Lemma cwp_value_missing i sp (Q : cres bytes -> spec -> Prop) :
     m_get (sm sp) i = None -> Q (CrErr (CvStorage SeNotFound)) sp -> cwp fl (cp_value i) sp Q.
   Proof.
-    intros Hg HQ. cbn [cp_value cp_bytes cwp]. intros v sp' H. cbn [spec_step] in H. rewrite Hg in H.
+    intros Hg HQ. cbn [cp_value cp_bytes cwp]. intros v sp' H Hok. cbn [spec_step] in H. rewrite Hg in H.
     inv_guard H. destruct v; try discriminate. destruct e; try discriminate. exact HQ.
   Qed.
 
@@ -169,7 +176,7 @@ Section Wp.
     m_get (sm sp) i = Some x -> off + n <= lenN x ->
     Q (CrOk (bs_read x (N.to_nat off) (N.to_nat n))) sp -> cwp fl (cp_value_at_size i off n) sp Q.
   Proof.
-    intros Hg Hb HQ. cbn [cp_value_at_size cp_bytes cwp]. intros v sp' H. cbn [spec_step] in H. rewrite Hg in H.
+    intros Hg Hb HQ. cbn [cp_value_at_size cp_bytes cwp]. intros v sp' H Hok. cbn [spec_step] in H. rewrite Hg in H.
     destruct (N.ltb_spec (lenN x) off); [lia|]. destruct (N.ltb_spec (lenN x) (off + n)); [lia|]. cbn [orb] in H.
     inv_guard H. destruct v; try discriminate. cbn [is_bytes] in *. apply bytes_eqb_eq in EG. subst. exact HQ.
   Qed.
@@ -177,7 +184,7 @@ Section Wp.
   Lemma cwp_value_size i sp x (Q : cres N -> spec -> Prop) :
     m_get (sm sp) i = Some x -> Q (CrOk (lenN x)) sp -> cwp fl (cp_value_size i) sp Q.
   Proof.
-    intros Hg HQ. cbn [cp_value_size cp_num cwp]. intros v sp' H. cbn [spec_step] in H. rewrite Hg in H.
+    intros Hg HQ. cbn [cp_value_size cp_num cwp]. intros v sp' H Hok. cbn [spec_step] in H. rewrite Hg in H.
     inv_guard H. destruct v; try discriminate. cbn [is_num] in *. apply N.eqb_eq in EG. subst. exact HQ.
   Qed.
 
@@ -185,7 +192,7 @@ Section Wp.
     (forall sp', sm sp' = sm sp -> sdepth sp' = sdepth sp + 1 -> Q (CrOk (sdepth sp + 1)) sp') ->
     cwp fl cp_transaction sp Q.
   Proof.
-    intros HQ. cbn [cp_transaction cp_num cwp]. intros v sp' H. cbn [spec_step] in H.
+    intros HQ. cbn [cp_transaction cp_num cwp]. intros v sp' H Hok. cbn [spec_step] in H.
     inv_guard H. destruct v; try discriminate. cbn [is_num] in *. apply N.eqb_eq in EG. subst. apply HQ; reflexivity.
   Qed.
 
@@ -194,7 +201,7 @@ Section Wp.
     (forall sp', sm sp' = sm sp -> sdepth sp' = id - 1 -> Q (CrOk tt) sp') ->
     cwp fl (cp_commit id) sp Q.
   Proof.
-    intros Hd Hn HQ. cbn [cp_commit cp_unit cwp]. intros v sp' H. cbn [spec_step] in H. rewrite Hd, N.eqb_refl in H.
+    intros Hd Hn HQ. cbn [cp_commit cp_unit cwp]. intros v sp' H Hok. cbn [spec_step] in H. rewrite Hd, N.eqb_refl in H.
     cbn [negb] in H. destruct (N.eqb_spec id 0); [contradiction|].
     inv_guard H. destruct v; try discriminate. cbn [cwp]. apply HQ; reflexivity.
   Qed.
@@ -205,7 +212,7 @@ Section Wp.
     (forall sp', sm sp' = sm sp -> sdepth sp' = 0 -> Q (CrOk tt) sp') ->
     cwp fl (cp_unit o) sp Q.
   Proof.
-    intros Hm Hd HQ. cbn [cp_unit cwp]. intros v sp' H.
+    intros Hm Hd HQ. cbn [cp_unit cwp]. intros v sp' H Hok.
     destruct o; try discriminate Hm; cbn [spec_step] in H.
     - inv_guard H. destruct v; try discriminate. cbn [cwp]. apply HQ; [reflexivity|exact Hd].
     - rewrite Hd in H. cbn [N.eqb negb andb] in H. rewrite andb_false_r in H.
@@ -224,6 +231,17 @@ Section Sound.
   Variable fl : bool.
   Hypothesis K : kind ops fl.
 
+  (* every live index of a storage state is a u64 *)
+  Lemma Rel_index_bound s sp j v : Rel s sp -> m_get (sm sp) j = Some v -> j < two64.
+  Proof.
+    intros ((rg & TL & (A0 & Ag)) & _) Hg.
+    assert (Hj : j <> 0) by (intros ->; congruence).
+    rewrite (Ag j Hj) in Hg. apply get_In in Hg.
+    destruct (In_layout 24 rg j v Hg) as (q & Hq).
+    destruct (tiles_elim _ _ TL) as (_ & _ & (TR & _) & (TW & _) & _).
+    apply (TR q j (lenN v) Hj) in Hq. apply live_at_lt in Hq. destruct TW as (Hlen & _). lia.
+  Qed.
+
   Theorem cwp_sound {A} (p : cprog A) : forall s sp (Q : cres A -> spec -> Prop),
     Rel s sp -> cwp fl p sp Q ->
     snd (cp_run (st_step cdata ops) p s) = CrDead \/
@@ -237,7 +255,11 @@ Section Sound.
       pose proof (step_refines ops fl K s sp o RL) as SR. rewrite Es in SR. cbn [fst snd] in SR.
       destruct SR as [->|(sp' & Hs & RL')]; [left; reflexivity|].
       destruct (spec_no_panic fl sp o) as [NP NF].
-      destruct v; try congruence; apply (IH _ s' sp' Q RL'); apply H; exact Hs.
+      assert (Hok : obs_ok o v).
+      { destruct o; try exact I. destruct v; try exact I. cbn [obs_ok]. cbn [spec_step] in Hs.
+        destruct (negb (n =? 0)); [|discriminate]. destruct (m_get (sm sp) n); [discriminate|]. injection Hs as <-.
+        apply (Rel_index_bound _ _ n bs RL'). cbn [sm mutate]. rewrite m_get_put, N.eqb_refl. reflexivity. }
+      destruct v; try congruence; apply (IH _ s' sp' Q RL'); apply H; assumption.
   Qed.
 
   (* a run that does not die leaves a storage that still refines an abstract map: the next program can start *)
